@@ -211,6 +211,15 @@ def core(ex, st, node, kind, sep, gen, elts, key, ikind, payload):
         if a is not None:
             results.append((a, finish(ex, a, kind, acc2, sep)))
         if b is not None:
+            # lemma instances for the step (contract: loop_hints[key]); `_acc` is the accumulator before the
+            # step, `_new` the element (`_newkey` / `_newval` for dict comprehensions), `_acc2` the accumulator after
+            hx = {"_i": i, "_seq": seqv, "_acc": acc, "_acc2": acc2, "_n": V("int", n)}
+            if vals is not None:
+                hx["_new"] = vals[0]
+                if len(vals) > 1:
+                    hx["_newkey"], hx["_newval"] = vals[0], vals[1]
+            for h in loops._hints(ex, "loop_hints", key):
+                b.assume(loops.eval_inv(ex, b, h, hx))
             g = loops.eval_inv(ex, b, inv, {"_i": V("int", i.t + 1), "_seq": seqv, "_acc": acc2, "_n": V("int", n)})
             eng.obligation(ex, b, f"{key}.preserve", g, "loop-preserve", node)
     accN = S.fresh("_acc", acc0.ty)
@@ -218,6 +227,8 @@ def core(ex, st, node, kind, sep, gen, elts, key, ikind, payload):
     if kc is not None:
         exit_st.assume(kc)
     exit_st.assume(loops.eval_inv(ex, exit_st, inv, {"_i": V("int", n), "_seq": seqv, "_acc": accN, "_n": V("int", n)}))
+    for h in loops._hints(ex, "exit_hints", key):
+        exit_st.assume(loops.eval_inv(ex, exit_st, h, {"_i": V("int", n), "_seq": seqv, "_acc": accN, "_n": V("int", n)}))
     if eng.quick_sat(exit_st.path):
         results.append((exit_st, finish(ex, exit_st, kind, accN, sep)))
     yield from results
